@@ -381,7 +381,8 @@ func c04RunOne(exe string, s *sScript, when int, killMs int) *c04Case {
 	c.OneMeta = v1.Meta.Rows == 1
 	c.OneRoot = v1.Meta.RootIsTop && (c.HasInit || v1.Meta.RootEdges == 1)
 	// the signing key never changes once set (the root id may: a new top-level node moves it, which the model follows)
-	c.KeySame = !haveMeta || wmeta.Key == "" || wmeta.Key == v1.Meta.Key
+	// after a complete open a signing key is on disk, and it is the one the writer saw (if it got that far)
+	c.KeySame = v1.Meta.Key != "" && (!haveMeta || wmeta.Key == "" || wmeta.Key == v1.Meta.Key)
 	v2, err := verify()
 	if err == nil && v2.OK {
 		b1, _ := json.Marshal([]any{v1.Root, v1.Views, v1.Meta})
